@@ -299,6 +299,7 @@ def run(prog, chk):
         raise Broken("fewer than 20 declaration/definition pairs in ciffile.c")
 
     text_field_rules(prog, chk, "R6", "R7")
+    precision_rule(prog, chk, "R9")
 
     r8 = chk.rule("R8-column-copies-fresh", "a local computed from the writer's last_column is not used after a call that writes "
                   "output (and so moves the column) unless it was recomputed or reset: line-length decisions look at the column "
@@ -308,7 +309,19 @@ def run(prog, chk):
         raise Broken("fewer than 4 locals computed from last_column in ciffile.c")
 
 
+def precision_rule(prog, chk, rid):
+    from .. import writerrules
+    r9 = chk.rule(rid + "-precision-in-code-units", "the precision of every %S conversion is a count of UChar units (never a "
+                  "u_countChar32 result): names and values with supplementary-plane characters are written whole", floor=3)
+    if writerrules.precision_units(prog, r9) < 3:
+        raise Broken("fewer than 3 %S conversions with a `*` precision in ciffile.c")
+
+
 def text_field_rules(prog, chk, ida, idb):
+    from .. import writerrules
+    rp = chk.rule(idb + "b-fold-accounts-for-prefix", "write_char's decision not to fold a text field compares the longest line plus "
+                  "the prefix length with the limit when a prefix can be requested", floor=1)
+    writerrules.fold_accounts_for_prefix(prog, rp)
     ra = chk.rule(ida + "-text-line-terminators", "write_text (folding / prefixing): every iteration of the loop over the value's "
                   "logical lines writes a line terminator - no logical line, the empty last one included, is dropped", floor=1)
     line_loop_rule(prog, ra)
